@@ -38,7 +38,7 @@ func runC08(c *an.Ctx) {
 	var site *ssa.Call
 	for _, s := range p.CallSites(sender) {
 		call, ok := s.(*ssa.Call)
-		if !ok {
+		if !ok || len(call.Call.Args) < 3 {
 			continue
 		}
 		fi := p.Info(call.Parent())
